@@ -484,9 +484,71 @@ func c17Scenario(t *rapid.T, w *World, p *Profile) {
 	api := apiOf(w)
 	n := rapid.IntRange(1, 4).Draw(t, "nreq")
 	for i := 0; i < n; i++ {
+		if rapid.IntRange(0, 3).Draw(t, "ws") == 0 {
+			c17WebSocket(t, w)
+			continue
+		}
 		c17Request(t, w, m, api, i+1)
 		if w.Failed != "" || w.Deadlock != "" {
 			return
+		}
+	}
+}
+
+func c17Origin(t *rapid.T, w *World) (string, bool) {
+	if rapid.IntRange(0, 3).Draw(t, "hasorigin") == 0 {
+		return "", false
+	}
+	listed := strings.Split(w.Cfg.AllowOrigin, ";")
+	base := rapid.SampledFrom(listed).Draw(t, "obase")
+	origin := ""
+	switch rapid.IntRange(0, 8).Draw(t, "ovar") {
+	case 0:
+		origin = base
+	case 1:
+		origin = strings.ToUpper(base)
+	case 2:
+		origin = lowerASCII(base)
+	case 3:
+		origin = base + "x"
+	case 4:
+		if len(base) > 1 {
+			origin = base[:len(base)-1]
+		}
+	case 5:
+		origin = "null"
+	case 6:
+		origin = "http://evil.org"
+	case 7:
+		origin = strings.Replace(base, "e", "é", 1)
+	default:
+		origin = strings.Replace(base, "http", "HTTP", 1)
+	}
+	if origin == "" || origin == "*" {
+		origin = "http://evil.org"
+	}
+	return origin, true
+}
+
+// c17WebSocket dials a WebSocket with a drawn Origin; a wsHeaderAuth request is answered with a drawn meta.
+func c17WebSocket(t *rapid.T, w *World) {
+	hdr := map[string]string{}
+	if o, ok := c17Origin(t, w); ok {
+		hdr["Origin"] = o
+	}
+	w.Exec(Op{K: "connect", C: len(w.Clients), H: hdr})
+	for _, pv := range w.PendingSorted() {
+		if strings.HasPrefix(pv.P.Subject, "auth.") {
+			ms := genMeta(t, "wsmeta")
+			metaPart := ""
+			if ms != nil {
+				metaPart = `,"meta":` + ms.JSON
+			}
+			body := `{"result":null` + metaPart + `}`
+			if rapid.IntRange(0, 4).Draw(t, "wserr") == 0 {
+				body = `{"error":{"code":"system.accessDenied","message":"E"}` + metaPart + `}`
+			}
+			w.Exec(Op{K: "ans", S: pv.P.Subject, Q: pv.P.Query, A: actorEnc(pv.Actor), N: pv.Ord, O: "raw", P: body})
 		}
 	}
 }
@@ -601,6 +663,7 @@ func (a *svcAnswer) direct() bool { return a.status != nil && *a.status >= 300 &
 
 func (m *MonC17) OnEnd(w *World) []Violation {
 	log := w.Log()
+	m.judgeWebSockets(w)
 	for _, h := range w.HTTP {
 		if h.Rejected || !strings.HasPrefix(h.URL, apiOf(w)) {
 			continue
@@ -817,4 +880,97 @@ func (m *MonC17) OnEnd(w *World) []Violation {
 		}
 	}
 	return m.viols
+}
+
+func (m *MonC17) judgeWebSockets(w *World) {
+	log := w.Log()
+	for _, c := range w.Clients {
+		origin, hasOrigin := c.Headers["Origin"]
+		allowed := originAllowed(w.Cfg.AllowOrigin, origin, hasOrigin)
+		var dial *LogEntry
+		for i := range log {
+			if log[i].Kind == "dial" && log[i].Conn == c.Idx {
+				dial = &log[i]
+			}
+		}
+		if dial == nil {
+			continue
+		}
+		m.class("websocket_dial")
+		var auth *svcAnswer
+		nreq := 0
+		reqs := map[int]bool{}
+		for i := range log {
+			e := &log[i]
+			if e.Kind == "mq_req" && e.CID == c.CID && c.CID != "" && e.T < dial.T {
+				nreq++
+				reqs[e.Req] = true
+			}
+			if e.Kind == "mq_complete" && reqs[e.Req] && strings.HasPrefix(e.Subject, "auth.") && e.T < dial.T {
+				a := &svcAnswer{kind: "auth", ansT: e.T}
+				var r struct {
+					Meta *struct {
+						Status *int                `json:"status"`
+						Header map[string][]string `json:"header"`
+					} `json:"meta"`
+				}
+				if json.Unmarshal(e.Payload, &r) == nil && r.Meta != nil {
+					a.hasMeta, a.status, a.header = true, r.Meta.Status, r.Meta.Header
+				}
+				auth = a
+			}
+		}
+		if hasOrigin && !allowed && origin != "http://evil.org" {
+			m.nontriv = true
+			m.class("ws_origin_near_miss")
+		}
+		if !allowed {
+			if dial.Err == "" || dial.Code != 403 || nreq > 0 {
+				m.violate(w, "ws_origin_not_refused", "WebSocket upgrade with Origin %q not in allow-list %q: error=%q status %d, %d service requests; expected 403 before any service request", origin, w.Cfg.AllowOrigin, dial.Err, dial.Code, nreq)
+			}
+			continue
+		}
+		if auth != nil && auth.direct() {
+			if dial.Err == "" || dial.Code != *auth.status {
+				m.violate(w, "ws_meta_status_not_honoured", "WebSocket upgrade: wsHeaderAuth answered with meta status %d, handshake result error=%q status %d", *auth.status, dial.Err, dial.Code)
+			}
+			continue
+		}
+		if dial.Err != "" {
+			if w.Cfg.WSHeaderAuth == "" || auth != nil {
+				m.violate(w, "ws_handshake_failed", "WebSocket upgrade with allowed origin %q failed: %s (status %d)", origin, dial.Err, dial.Code)
+			}
+			continue
+		}
+		// the handshake validated (the dialer checks Sec-WebSocket-Accept); meta headers other than the protected ones are present
+		if auth != nil && auth.hasMeta {
+			var want []string
+			for k, vals := range auth.header {
+				if textproto.CanonicalMIMEHeaderKey(k) == "Set-Cookie" {
+					want = append(want, vals...)
+				}
+			}
+			got := append([]string(nil), dial.Header["Set-Cookie"]...)
+			sort.Strings(got)
+			sort.Strings(want)
+			if !reflect.DeepEqual(got, want) && !(len(got) == 0 && len(want) == 0) {
+				m.violate(w, "ws_set_cookie", "WebSocket upgrade: Set-Cookie values %v, the wsHeaderAuth meta supplied %v", got, want)
+			}
+			for _, ph := range []string{"Sec-Websocket-Protocol", "Sec-Websocket-Extensions", "Content-Type", "Access-Control-Allow-Origin", "Access-Control-Allow-Credentials"} {
+				for k, vals := range auth.header {
+					if textproto.CanonicalMIMEHeaderKey(k) == ph {
+						for _, v := range vals {
+							for _, gv := range dial.Header[ph] {
+								if gv == v {
+									m.violate(w, "ws_protected_header", "WebSocket upgrade: protected header %s=%q was taken from the wsHeaderAuth meta", ph, v)
+								}
+							}
+						}
+						m.nontriv = true
+					}
+				}
+			}
+			m.class("ws_meta_headers_checked")
+		}
+	}
 }
